@@ -18,6 +18,8 @@ CHECKS = {
          "6", "bounded-exhaustive enumeration of pairs; per-hunk provenance replay and leave-one-out on the real code"),
  "C08": ("every set/multiset/SetKeys-mode diff of the universes (whole and hunk by hunk) applied by the real Patch to a, b, all permutations/duplications of a's arrays and all targets within 1 (thorough: 2) structural edits of a; accept/reject and result compared with a reference set/bag/keyed-member interpreter",
          "6", "deviation-bounded exhaustive enumeration of (set-mode diff, target) with reference set/bag interpreter"),
+ "C02": ("every diff of the pair universes x 8 option sets, every well-formed hunk shape built from the public DiffElement fields (singles, pairs, triples; strict-then-merge) and every BMP one-rune / special two-rune / YAML-ambiguous string payload: Render/ReadDiffString/Render text identity, structural identity of the re-read diff, colour = plain + ANSI only, and same effect of in-memory and re-read diff on every target of a fixed universe plus constructed witnesses",
+         "6", "bounded-exhaustive enumeration of diffs / hunk sequences / payloads with differential (in-memory vs re-read) and reference-interpreter oracles"),
 }
 NOT_YET = {}
 def main():
